@@ -37,7 +37,7 @@ def _gen(rnd):
             s = p + rnd.randrange(0, 5)
             e = s + rnd.randrange(4, 20)
             blocks.append([s, e])
-            p = e + rnd.randrange(2, 9)
+            p = e + rnd.choice([0, 2, 3, 4, 5, 6, 7, 8, 0, 1])  # 0-bp gaps (touching exons) included
         if blocks[-1][1] > L - 5:
             break
         tag = "LT_%d" % tagnums[gi]  # unique, but not in lexicographic order along the sequence (LT_9 before LT_10)
@@ -181,6 +181,8 @@ def _events(args):
 def _key(ev, clause):
     if clause == "independent-reader:minus-strand-parts-not-in-biological-order":
         return "genbank:minus-strand-join-order"
+    if clause == "reparse:touching-blocks-merged":
+        return "genbank:parser-merges-touching-blocks"
     return None
 
 
